@@ -87,14 +87,14 @@ def generate(tier, seed):
     for (pre, prog, follow), n in zip(cases, counts):
         n = min(n, 40 if tier == "quick" else 120)
         for k in range(0, n + 1):
-            lines += ["NEW"] + pre + ["DUMP a b c", "FAILAT %d" % k, "EVAL " + prog, "TICKS", "DUMP a b c",
+            lines += ["NEW"] + pre + ["DUMP a b c", "FAILAT %d" % k, "EVAL " + prog, "TICKS", "DUMP a b c", "INVENTORY diff",
                                       "FAILAT 0", "EVAL " + follow, "DUMP a b c"]
             runs += 1
     own = own_error_forms()
     for globals_first in (True, False):
         for f in own:
             lines += ["NEW"] + OWN_PRE + (["EVAL (setq a 7) (setq b 8) (setq c 9)"] if globals_first else []) + \
-                     ["DUMP a b c", "EVAL " + f, "DUMP a b c", "EVAL (list (boundp 'a) (boundp 'b) (boundp 'c))", "DUMP a b c"]
+                     ["DUMP a b c", "EVAL " + f, "DUMP a b c", "INVENTORY diff", "EVAL (list (boundp 'a) (boundp 'b) (boundp 'c))", "DUMP a b c"]
     return {"lines": lines, "distribution": {"programs": nprog, "fault_runs": runs, "own_error_forms": 2 * len(own),
                                              "ticks_per_program_max": max(counts or [0])}}
 
